@@ -933,13 +933,28 @@ def log_call(
         if include_args is not None:
             callargs = {k: callargs[k] for k in include_args}
 
-        with start_action(action_type=action_type, **callargs) as ctx:
+        with _start_action_with_fields(action_type, callargs) as ctx:
             result = wrapped_function(*args, **kwargs)
             if include_result:
                 ctx.add_success_fields(result=result)
             return result
 
     return logging_wrapper
+
+
+def _start_action_with_fields(action_type, fields):
+    """
+    Like L{start_action}, but the start message's fields are given as a
+    dictionary, so their names cannot clash with L{start_action}'s own
+    parameters (C{logger}, C{action_type}, C{_serializers}).
+    """
+    parent = current_action()
+    if parent is None:
+        action = Action(None, str(uuid4()), TaskLevel(level=[]), action_type)
+    else:
+        action = parent.child(None, action_type)
+    action._start(fields)
+    return action
 
 
 def log_message(message_type, **fields):
